@@ -83,9 +83,10 @@ def worker(ck: Check, code):
     r_fresh = ex3.explore('text2digits', [H.SlotPhrase(tuple(tuple(s) for s in slots[1:])), lang2])
     ck.absorb(ex2)
     ck.absorb(ex3)
-    m1 = H.merged_result(r_again)
-    m2 = H.merged_result(r_fresh)
-    diff = z3.Not(values_equal(m1, m2))
+    cov = []
+    m1 = merged(cov, r_again)
+    m2 = merged(cov, r_fresh)
+    diff = z3.And(z3.And(*cov), z3.Not(values_equal(m1, m2)))
     r, mdl = ck.solve(assm + [diff])
     ck.obligations += 1
     if r == 'unsat':
